@@ -1046,6 +1046,81 @@ func runTrustClient(c *hx.Ctx, g *gen, l *loop) {
 	}
 }
 
+// runBoundaries: fixed listeners and ClientHellos — the boundaries the property names and the inputs of the repaired
+// defects (kept in every run, both directly and through a handshake where the name can go on the wire).
+func runBoundaries(c *hx.Ctx, l *loop) {
+	type bc struct {
+		cs     func() []*ctxSpec
+		hellos [][2]string // sni, comma-separated client ALPN
+	}
+	st := func(cn string, sans []string, alpn, sname string) *ctxSpec {
+		return &ctxSpec{kind: kStatic, cn: cn, sans: sans, alpn: alpn, sname: sname}
+	}
+	cases := []bc{
+		// wildcard depth and label boundaries
+		{func() []*ctxSpec {
+			return []*ctxSpec{st("default.test", nil, "", ""), st("", []string{"*.com"}, "", ""), st("", []string{"*.a.com", "a.com"}, "", ""), st("x.a.com", nil, "", "")}
+		}, [][2]string{{"com", ""}, {"a.com", ""}, {"x.a.com", ""}, {"y.x.a.com", ""}, {"b.com", ""}, {"z.b.com", ""}, {"A.COM", ""}, {"a.com.", ""}, {"a.com...", ""},
+			{".com", ""}, {"a..com", ""}, {"*.com", ""}, {"*.a.com", ""}, {"*", ""}, {"", ""}, {".", ""}, {"org", ""}, {"a.org", ""}, {"xa.com", ""}, {"com.a", ""}}},
+		// precedence: name beats ALPN beats default; first of several
+		{func() []*ctxSpec {
+			return []*ctxSpec{st("d.test", nil, "", ""), st("p.test", nil, "h2", ""), st("q.test", nil, "h2,http/1.1", ""), st("", []string{"*.test"}, "sofa", ""), st("q.test", nil, "", "")}
+		}, [][2]string{{"q.test", "h2"}, {"zz.test", "h2"}, {"none.org", "http/1.1"}, {"none.org", "http/1.1,h2"}, {"none.org", "sofa"}, {"none.org", "spdy/3"}, {"none.org", ""},
+			{"p.test", "sofa"}, {"", "h2"}, {"", "sofa"}, {"", ""}, {"none.org", "H2"}, {"none.org", "h2c"}}},
+		// readiness: pending sds contexts are skipped by every rule
+		{func() []*ctxSpec {
+			return []*ctxSpec{{kind: kSdsNever, cn: "a.test", alpn: "h2"}, {kind: kSdsPost, cn: "b.test", alpn: "http/1.1"}, {kind: kSdsNever, cn: "c.test"}, {kind: kSdsPre, cn: "a.test", alpn: "h2", sname: "c.test"}, st("e.test", nil, "", "")}
+		}, [][2]string{{"a.test", ""}, {"c.test", ""}, {"none.org", "h2"}, {"none.org", ""}, {"b.test", "h2"}, {"e.test", "http/1.1"}}},
+		{func() []*ctxSpec { return []*ctxSpec{{kind: kSdsNever, cn: "a.test"}, {kind: kSdsNever, cn: "b.test"}} }, [][2]string{{"a.test", "h2"}, {"", ""}}},
+		{func() []*ctxSpec { return nil }, [][2]string{{"a.test", "h2"}, {"", ""}}},
+		// repaired: sds contexts of one listener took the last context's config when the secret arrived afterwards
+		{func() []*ctxSpec {
+			return []*ctxSpec{{kind: kSdsPost, cn: "", sans: nil, alpn: "h2", sname: "a.com"}, {kind: kSdsPost, cn: "", alpn: "sofa", sname: "b.org"}, st("last.test", nil, "", "")}
+		}, [][2]string{{"a.com", ""}, {"b.org", ""}, {"none.org", "h2"}, {"none.org", "sofa"}, {"none.org", ""}}},
+		// repaired: the empty server_name was a match key (a ClientHello without SNI matched it)
+		{func() []*ctxSpec {
+			return []*ctxSpec{st("", []string{"*.io"}, "", "www.svc.b"), st("api.io", []string{"io"}, "h2", ""), st("c.io", nil, "http/1.1", "")}
+		}, [][2]string{{"", ""}, {".", ""}, {"", "http/1.1"}, {"", "spdy/3"}, {"..", "h2"}}},
+		// repaired: stored keys were not lower-cased
+		{func() []*ctxSpec {
+			return []*ctxSpec{st("d.test", nil, "", ""), st("Svc.SVC.io", []string{"*.WILD.io"}, "H2", "Name.IO"), st("svc.svc.io", nil, "h2", "")}
+		}, [][2]string{{"svc.svc.io", ""}, {"SVC.svc.IO", ""}, {"x.wild.io", ""}, {"name.io", ""}, {"none.org", "h2"}, {"none.org", "H2"}}},
+	}
+	for _, b := range cases {
+		for _, via := range []bool{false, true} {
+			cs := b.cs()
+			mng, err := buildManager(cs, false, nil)
+			if err != nil {
+				panic(err)
+			}
+			for _, h := range b.hellos {
+				sni := h[0]
+				var protos []string
+				if h[1] != "" {
+					protos = strings.Split(h[1], ",")
+				}
+				cls := "fixed+" + class(cs, sni, protos)
+				tok := fmt.Sprintf("%s %s %s %s", cls, ctxsTok(cs), esc(sni), escList(protos))
+				if !via {
+					c.Emit("C13", "sel "+tok, selectDirect(mng, cs, sni, protos))
+					c.Count("fixed.sel")
+					continue
+				}
+				if strings.HasSuffix(sni, ".") || strings.HasPrefix(sni, ".") || strings.Contains(sni, "..") || sni == "*" {
+					continue // not sent verbatim by a crypto/tls client
+				}
+				peer, _, _ := handshake(l, mng, &gotls.Config{ServerName: sni, NextProtos: protos, InsecureSkipVerify: true})
+				out := "err"
+				if peer != nil {
+					out = whichCert(cs, peer)
+				}
+				c.Emit("C13", "hs "+tok, out)
+				c.Count("fixed.hs")
+			}
+		}
+	}
+}
+
 // Run: policy tables over every flag combination, selection directly and through handshakes, the inspector with real
 // bytes, the two trust matrices.
 func Run(c *hx.Ctx) {
@@ -1062,6 +1137,7 @@ func Run(c *hx.Ctx) {
 	defer l.ln.Close()
 
 	runPolicyTables(c)
+	runBoundaries(c, l)
 	runInspector(c, g, l)
 	runTrustServer(c, g, l, c.N(2, 6))
 	runTrustClient(c, g, l)
